@@ -10,6 +10,7 @@ pub mod c10;
 pub mod c12;
 pub mod c13;
 pub mod c16;
+pub mod c17;
 pub mod c14;
 pub mod c15;
 pub mod c19;
@@ -32,6 +33,7 @@ pub fn run(ctx: &Ctx, sink: &mut Sink) -> bool {
         "C12" => c12::run_prop(ctx, sink),
         "C13" => c13::run_prop(ctx, sink),
         "C16" => c16::run_prop(ctx, sink),
+        "C17" => c17::run_prop(ctx, sink),
         "C19" => c19::run_prop(ctx, sink),
         "C20" => c20::run_prop(ctx, sink),
         "C06" => c06::run_prop(ctx, sink),
